@@ -29,7 +29,7 @@ RECURSIVE SkipTailM(_, _)
 SkipTailM(t, i) ==          \* while c is one of ; space { } \r \t
   IF i > Len(t) THEN i
   ELSE IF IsTail(t[i]) THEN SkipTailM(t, i + 1) ELSE i
-TokenEnd(t, start) ==
+TokEndM(t, start) ==
   LET i == SkipBodyM(t, start)
   IN IF i > Len(t) THEN Len(t)
      ELSE LET j == SkipTailM(t, i)
@@ -39,16 +39,16 @@ TokenEnd(t, start) ==
 RECURSIVE TokensFrom(_, _)
 TokensFrom(t, start) ==
   IF start > Len(t) THEN <<>>
-  ELSE LET e == TokenEnd(t, start)
+  ELSE LET e == TokEndM(t, start)
        IN <<SubSeq(t, start, e)>> \o TokensFrom(t, e + 1)
 Tokens(t) == TokensFrom(t, 1)
 
-EndsNL(x) == x # <<>> /\ x[Len(x)] = NL
+EndsWithNL(x) == x # <<>> /\ x[Len(x)] = NL
 
 (* get_generated_source_info                                                *)
 SourceInfo(t) ==
   LET ls == Lines(t)
-  IN IF EndsNL(t) THEN <<Len(ls) + 1, 0>>
+  IN IF EndsWithNL(t) THEN <<Len(ls) + 1, 0>>
      ELSE IF ls = <<>> THEN <<1, 0>> ELSE <<Len(ls), Len(ls[Len(ls)])>>
 
 Self(line, col) == <<0, line, col, -1>>
@@ -62,10 +62,10 @@ OrigColumns(t, final) ==
             lone == tok = <<NL>>
             ev == IF lone
                     THEN (IF final THEN <<>> ELSE <<Ev(<<tok>>, line, col, <<>>)>>)
-                    ELSE <<Ev(IF final THEN <<>> ELSE <<tok>>, line, col, <<Self(line, col)>>)>>
+                    ELSE <<Ev(IF final THEN <<>> ELSE <<tok>>, line, col, Self(line, col))>>
         IN <<acc[1] \o ev,
-             IF EndsNL(tok) THEN line + 1 ELSE line,
-             IF EndsNL(tok) THEN 0 ELSE col + Len(tok)>>
+             IF EndsWithNL(tok) THEN line + 1 ELSE line,
+             IF EndsWithNL(tok) THEN 0 ELSE col + Len(tok)>>
       r == FoldLeft(step, <<<<>>, 1, 0>>, Tokens(t))
   IN [ev |-> r[1], end |-> <<r[2], r[3]>>]
 
@@ -74,11 +74,11 @@ OrigLines(t, final) ==
   IF final
     THEN LET info == SourceInfo(t)
              n == IF info[2] = 0 THEN info[1] - 1 ELSE info[1]
-         IN [ev |-> [l \in 1..n |-> Ev(<<>>, l, 0, <<Self(l, 0)>>)], end |-> info]
+         IN [ev |-> [l \in 1..n |-> Ev(<<>>, l, 0, Self(l, 0))], end |-> info]
     ELSE LET ls == Lines(t)
              n == Len(ls)
-         IN [ev |-> [l \in 1..n |-> Ev(<<ls[l]>>, l, 0, <<Self(l, 0)>>)],
-             end |-> IF n > 0 /\ ~EndsNL(ls[n]) THEN <<n, Len(ls[n])>> ELSE <<n + 1, 0>>]
+         IN [ev |-> [l \in 1..n |-> Ev(<<ls[l]>>, l, 0, Self(l, 0))],
+             end |-> IF n > 0 /\ ~EndsWithNL(ls[n]) THEN <<n, Len(ls[n])>> ELSE <<n + 1, 0>>]
 
 OrigStream(t, columns, final) ==
   IF columns THEN OrigColumns(t, final) ELSE OrigLines(t, final)
@@ -89,5 +89,5 @@ RawStream(t, final) ==
   ELSE LET ls == Lines(t)
            n == Len(ls)
        IN [ev |-> [l \in 1..n |-> Ev(<<ls[l]>>, l, 0, <<>>)],
-           end |-> IF n > 0 /\ ~EndsNL(ls[n]) THEN <<n, Len(ls[n])>> ELSE <<n + 1, 0>>]
+           end |-> IF n > 0 /\ ~EndsWithNL(ls[n]) THEN <<n, Len(ls[n])>> ELSE <<n + 1, 0>>]
 =============================================================================
